@@ -231,7 +231,7 @@ def indicehis(inputfile: str, outputfile: str = None) -> None:
 
     medium = medium[:, 3:7]  # <n3 n4 n5 n6>
     indices, counts = np.unique(medium, return_counts=True, axis=0)
-    sort_indices = np.argsort(counts)[::-1]
+    sort_indices = np.argsort(counts)[::-1][:50]  # only the top 50 are output
     freq_indices = counts / totaldata  # / ParticleNumber / SnapshotNumber
     results = np.column_stack((indices[sort_indices], freq_indices[sort_indices]))
     fformat = "%d " * medium.shape[1] + "%.6f "
